@@ -245,6 +245,15 @@ func genC15(c *Ctx) {
 			}
 		}
 	}
+	// the METHOD Square.Size() on share lists of every length 0..300 (squares that are not k*k long included):
+	// it must agree with the function Size(len) and be the least power of two whose square holds the shares
+	for n := 0; n <= 300; n++ {
+		sq := square.Square(share.TailPaddingShares(n))
+		got := sq.Size()
+		ok := got == square.Size(n) && got*got >= n && isPow2(got) && (got == 1 || (got/2)*(got/2) < n)
+		c.check(ok, "Square.Size", "the method disagrees with Size(len) / is not the least power of two whose square holds the shares", map[string]any{"shares": n})
+	}
+	c.count("square_size_method_0_300")
 	// rounding helpers and IsPowerOfTwo near every power of two up to 2^62 (beyond, RoundUpPowerOfTwo does
 	// not terminate, section 7 of DESIGN.md), and at the negative side
 	for e := 1; e <= 62; e++ {
